@@ -230,7 +230,10 @@ def run(prop, tier, seed, keep=False, only=None, jobs=16):
             if res["verdict"] == "pass":
                 continue
             if res["verdict"] == "inconclusive":
-                inconclusive.append("%s: %s" % (name, res["reason"]))
+                if h.optional:
+                    print("NOT-FINISHED (optional, not counted) %s: %s" % (name, res["reason"]))
+                else:
+                    inconclusive.append("%s: %s" % (name, res["reason"]))
                 continue
             labels = [f["label"] for f in res["failed"]]
             sig = (h.family or h.name, tuple(sorted(labels)))
